@@ -573,6 +573,9 @@ func checkC02(w *World) {
 	w.noBypass(P, f, r)
 	// a predicate on a filter expression numbers the node-set in document order: unions are forward-normalised
 	w.include(P, "C03", "R03.3", "R03.5", "R03.6")
+	// a predicate on a step numbers the nodes of the axis in document order (reversed for the reverse axes): every axis
+	// selector hands over a sorted node-set
+	w.include(P, "C03", "R03.1")
 	// position() and last() keep their meaning inside function arguments and operands of the predicate expression
 	w.include(P, "C01", "R01.13")
 	w.include(P, "C11", "R11.5")
